@@ -295,7 +295,7 @@ class Gen:
         for n in names:
             cfg = next(c for c in host_cfgs if c["hostname"] == n)
             for entry in cfg.get("services", []) + cfg.get("applications", []):
-                if self.chance(0.08) and not entry["type"].startswith("c2"):
+                if self.chance(0.08) and not entry["type"].startswith("c2") and "listen_on_ports" not in self.avoid:
                     entry.setdefault("options", {})["listen_on_ports"] = r.sample([80, 21, 53, 631], r.randint(1, 2))
 
     # -- topologies -------------------------------------------------------------------------------------------------
@@ -408,6 +408,8 @@ class Gen:
         routes1, routes2 = [], []
         default1 = default2 = None
         style = r.choice(["static", "default", "mixed", "overlap"])
+        if "routing_loop" in self.avoid and style in ("default", "mixed"):
+            style = "static"  # default routes pointing at each other forward unroutable destinations in a loop
         for s in range(k):
             third = 10 * (s + 1)
             mask = self.inv["subnets"][f"net{s}"]["mask"]
